@@ -87,3 +87,25 @@ fn c17_frame_number_and_sample_range() {
     kani::cover!(n == (1usize << 31) - 1 && sample_ok);
     kani::cover!(n == 0 && !sample_ok);
 }
+
+// ================================================================================================
+// C01.2: Rice split of one residual, complete over i32 x 0..=14
+// ================================================================================================
+
+/// (q << p) + r == zigzag(e)  and  r < 2^p  -- so that `q` zeros, a one and `p` remainder bits are
+/// the RFC 9639 Rice code of `e`.  Uses the verified contract of `encode_signbit`.
+//@ unit props=C01,C13 tier=quick kind=complete timeout=300 funcs="coding::quotients_and_remainders" stubs="rice::encode_signbit -> its verified Kani contract (stub_verified)"
+#[kani::proof]
+#[kani::unwind(2)]
+#[kani::stub_verified(rice::encode_signbit)]
+fn c01_quotients_and_remainders() {
+    let e: i32 = kani::any();
+    let p: u8 = kani::any();
+    kani::assume(p <= 14);
+    kani::assume(e != i32::MIN);
+    let (q, r) = quotients_and_remainders(e, p);
+    assert!((r as u64) < (1u64 << p));
+    assert!(((q as u64) << p) + r as u64 == spec_zigzag(e));
+    kani::cover!(e < 0 && p == 14);
+    kani::cover!(p == 0);
+}
